@@ -235,7 +235,7 @@ func TestRandom(t *testing.T) {
 
 // TestBuffer: inputs around and above the 1000-traveler buffer each aggregation reads from.
 func TestBuffer(t *testing.T) {
-	pbt.Check(t, 16, 1600, func(rt *rapid.T) {
+	pbt.Check(t, 40, 1600, func(rt *rapid.T) {
 		n := rapid.SampledFrom([]int{999, 1000, 1000, 1001, 1001, 1002, 1500, 2100}).Draw(rt, "nV")
 		c := genCase(rt, n)
 		// mostly the plain scan, so that the row count is the vertex count
